@@ -526,6 +526,89 @@ def resave_case(ctx, h, tmp):
             return
 
 
+def moved_case(ctx, h, tmp):
+    """a resource is given another URI (`res.uri = ...`: another file name, another directory) after the references across
+    the files exist and before anything is saved: the resource set knows it under the new URI only, the files are written
+    where the resources now are, and the references written into the other files lead to the new location"""
+    from pyecore.resources import ResourceSet, URI
+    from pyecore.resources.json import JsonResource
+    rng = common.sub_rng(ctx.seed, 'C14', 'moved', h)
+    fmt = 'xmi' if h % 3 != 2 else 'json'
+    case_dir = os.path.join(tmp, f'moved{h}')
+    os.makedirs(case_dir)
+    try:
+        sp, built, ms, rset, paths, ncross = build_world(rng, h, case_dir, fmt, rng.choice([2, 3]))
+    except Exception as e:
+        ctx.count('moved/setup-raised/' + type(e).__name__)
+        return
+    if not ncross:
+        return
+    k = rng.randrange(1, len(paths))
+    res = rset.resources[URI(paths[k]).normalize()]
+    where = rng.choice(['renamed', 'other-directory', 'deeper'])
+    d, b = os.path.split(paths[k])
+    new = {'renamed': os.path.join(d, 'renamed_' + b), 'other-directory': os.path.join(case_dir, 'elsewhere', b),
+           'deeper': os.path.join(d, 'down', 'below', b)}[where]
+    os.makedirs(os.path.dirname(new), exist_ok=True)
+    rep = {'case': h, 'moved': True, 'format': fmt, 'where': where}
+    old_key = URI(paths[k]).normalize()
+    try:
+        res.uri = URI(new) if rng.random() < .5 else new
+    except Exception as e:
+        ctx.violate({'clause': 'moved-raised', 'format': fmt, 'trigger': 'none'},
+                    f'moved-raised: giving a resource of a resource set another URI raised {type(e).__name__}: {e}', rep)
+        return
+    ctx.evaluations += 1
+    ctx.count(f'moved/{fmt}/{where}')
+    ctx.nontriv(('moved', h))
+    keys = list(rset.resources)
+    if old_key in keys or URI(new).normalize() not in keys or rset.resources[URI(new).normalize()] is not res \
+            or len(keys) != len(paths):
+        ctx.violate({'clause': 'moved-registry', 'format': fmt, 'trigger': 'none'},
+                    f'moved-registry: after `res.uri = new` the resource set holds {len(keys)} entries for {len(paths)} resources '
+                    f'(old key still there: {old_key in keys}; new key leads to the resource: '
+                    f'{rset.resources.get(URI(new).normalize()) is res})', rep)
+        return
+    newpaths = list(paths)
+    newpaths[k] = new
+    want = expected_links(ms)
+    try:
+        for p in newpaths:
+            rset.resources[URI(p).normalize()].save()
+        if os.path.exists(paths[k]):
+            ctx.violate({'clause': 'moved-registry', 'format': fmt, 'trigger': 'none'},
+                        'moved-registry: a resource saved after it had been given another URI wrote to the old location', rep)
+            return
+        rset2 = ResourceSet()
+        rset2.resource_factory['json'] = lambda uri: JsonResource(uri)
+        rset2.metamodel_registry[built[0].nsURI] = built[0]
+        first = rset2.get_resource(URI(newpaths[0]))
+        for o in preorder(first.contents):
+            for f in _refs(o):
+                v = o.eGet(f)
+                for t in (list(v) if f.many else ([v] if v is not None else [])):
+                    _ = t.eClass
+        res2 = [rset2.get_resource(URI(p)) for p in newpaths]
+        got = links_now(res2)
+    except Exception as e:
+        ctx.violate({'clause': 'moved-raised', 'format': fmt, 'trigger': 'none'},
+                    f'moved-raised: saving the files after one resource had been given another URI ({where}) and reloading the first raised '
+                    f'{type(e).__name__}: {e}', rep)
+        return
+    for key in sorted(want):
+        if key[0] != 0:
+            continue
+        w_, g_ = want[key], got.get(key)
+        if g_ != w_:
+            mixed = len({kk for (kk, _) in [x for x in w_ if x]}) > 1
+            order_only = g_ is not None and sorted(map(str, g_)) == sorted(map(str, w_))
+            ctx.violate({'clause': 'wrong-target', 'format': fmt,
+                         'trigger': 'xmi-mixed-local-and-cross-order' if (fmt == 'xmi' and order_only and mixed) else 'none'},
+                        f'wrong-target: after resource {k} had been given another URI ({where}), object {key[1]}.{key[2]} of file 0 reaches '
+                        f'{g_}, as built it reached {w_}', rep)
+            return
+
+
 def run(ctx):
     common.use_repo()
     n = 200 if ctx.quick() else 4000
@@ -540,6 +623,8 @@ def run(ctx):
             run_case(ctx, h, tmp)
         for h in range(n // 4):
             resave_case(ctx, h, tmp)
+        for h in range(n // 5):
+            moved_case(ctx, h, tmp)
         for k in range(6):
             alias_case(ctx, tmp, 'xmi' if k % 2 == 0 else 'json', k)
         path_correspondence(ctx)
